@@ -133,8 +133,13 @@ Lemma liquid_block_comment_text : forall f t depth t' tok,
                start t + length text <= pos t' /\
                text = firstn (length text) (skipn (start t) s).
 Proof.
-  induction f as [|f IH]; intros t depth t' tok (H1 & H2) Hl H; [discriminate|].
+  induction f as [|f IH]; intros t0 depth t' tok (H01 & H02) Hl0 H; [discriminate|].
   cbn [liquid_block_comment] in H. cbv zeta in H.
+  destruct (skip_ws_spec s t0 H02) as (W1 & W2 & W3 & W4 & W5).
+  remember (skip_ws s t0) as t eqn:Ht.
+  rewrite <- W3, <- W5.
+  assert (H1 : start t <= pos t) by lia. assert (H2 : pos t <= L) by lia.
+  assert (Hl : lstart t <= start t) by lia.
   pose proof (tag_name_len_le (rest s (pos t))) as Hn. rewrite rest_len in Hn.
   assert (Hrec : forall t2 d, pos t <= pos t2 -> pos t2 <= L -> start t2 = start t -> lstart t2 = lstart t ->
             liquid_block_comment s f t2 d = Ok (t', tok) ->
